@@ -241,7 +241,8 @@ def conducted(ctx, key, num, pool=None, depth=400):
         # epilogue (free-running): the partitions must be back to normal - fresh messages flow and Close returns
         extra = [(nmsgs + 1 + p_, p_) for p_ in range(len(dcfg["leaders"]))]
         tail += submits(extra) + [{"op": "wait_outcomes", "n": nmsgs + len(extra), "ms": 3000}, {"op": "close"}]
-        s_ = {"name": "%s#%d%s" % (key, len(out) + 1, "w%d" % win if win else ""), "family": key, "cfg": dict(dcfg), "plans": plans, "steps": tail,
+        # (requests are held by the broker across many conducted steps: the client must never time out on its own)
+        s_ = {"name": "%s#%d%s" % (key, len(out) + 1, "w%d" % win if win else ""), "family": key, "cfg": dict(dcfg, readTimeoutMs=60000), "plans": plans, "steps": tail,
               "conduct": steps, "gates": []}
         if len(out) % 2 == 1 or dcfg["idem"]:
             # every other behaviour: a submission re-uses a message object the producer has already handed back (if there is
@@ -928,6 +929,7 @@ def check(ctx, pid, families, mc_cfgs, level="model_checking", extra_assumptions
         for s_ in scs:
             fam_counts[s_["family"]] = fam_counts.get(s_["family"], 0) + 1
         scenarios += scs
+    pool.shutdown(wait=False)
     if close_stride:
         import random as _r
         cp = close_points([s_ for s_ in scenarios if s_["family"] in ("faults1", "faults2", "exhaust", "gates")], close_stride, _r.Random(ctx.seed))
